@@ -179,6 +179,32 @@ func executeStep(
 	}
 }
 
+// joinsGatewayObject reports whether the step hangs off a step that the gateway answers itself: the object
+// it joins onto was not reported by any service
+func joinsGatewayObject(plan *QueryPlan, step *QueryPlanStep) bool {
+	if plan == nil || plan.RootStep == nil {
+		return false
+	}
+	var parentOf func(candidate *QueryPlanStep) *QueryPlanStep
+	parentOf = func(candidate *QueryPlanStep) *QueryPlanStep {
+		for _, child := range candidate.Then {
+			if child == step {
+				return candidate
+			}
+			if found := parentOf(child); found != nil {
+				return found
+			}
+		}
+		return nil
+	}
+	parent := parentOf(plan.RootStep)
+	if parent == nil {
+		return false
+	}
+	_, ok := parent.Queryer.(*Gateway)
+	return ok
+}
+
 type dependentStepArgs struct {
 	step           *QueryPlanStep
 	insertionPoint []string
@@ -271,10 +297,12 @@ func executeOneStep(
 		ctx.logger.Debug("Should strip node")
 		// the service was asked for an object that another service just told us about. An answer without
 		// that object (and without an error of its own) is a failure of the join and has to be reported.
-		// The one exception is an id that came in through a field of type Node (the gateway's own node
-		// field): nobody knows which services own such an id, so a service may rightfully answer null for
-		// it. An answer that leaves the field out altogether is malformed in either case.
-		if node, ok := queryResult["node"]; queryErr == nil && (!ok || (node == nil && step.ParentType != "Node")) {
+		// The one exception is an id that came in through a field of type Node or through a field the
+		// gateway answers itself (its own node field, also when the selection narrows the object with
+		// a fragment on a concrete type): nobody knows which services own such an id, so a service may
+		// rightfully answer null for it. An answer that leaves the field out altogether is malformed in
+		// either case.
+		if node, ok := queryResult["node"]; queryErr == nil && (!ok || (node == nil && step.ParentType != "Node" && !joinsGatewayObject(plan, step))) {
 			return nil, nil, fmt.Errorf("service did not return the %s with id %v", step.ParentType, variables["id"])
 		}
 
